@@ -262,6 +262,21 @@ def run(ctx):
             t = "".join(rng.choice(soup) + rng.choice([" ", " ", "", "\n"]) for _ in range(rng.randint(1, 14)))
         tie_reader(t, {"kind": "reader", "label": "malformed"})
         res.count("malformed_texts")
+    # exhaustive part of the reader tie: every sequence of up to N tokens of a small alphabet in eleven contexts, read by Lark
+    # and by the Lean reader (quick: one slice in eight chosen by the seed; thorough: all of them, one token longer)
+    from . import decexh
+
+    if ctx["driver_ok"]:
+        if tier == "quick":
+            total, acc, bad, first = decexh.run(3, (seed % 8, 8), verbose=False)
+        else:
+            total, acc, bad, first = decexh.run(4, (0, 1), verbose=False)
+        res.distribution["exhaustive_reader_texts"] = total
+        res.distribution["exhaustive_reader_texts_accepted"] = acc
+        res.evaluations += total
+        for t, e, g in first[:10]:
+            res.violation("the reader model and the real parser read a text differently", {"kind": "reader", "label": "exhaustive", "text": t},
+                          impl=e if e[0] == "err" else e[1][:3], model=g if g[0] == "err" else g[1][:3], clause="model tie: reader")
     batch.run()
     shutil.rmtree(tmp, ignore_errors=True)
     return res.done()
